@@ -267,7 +267,8 @@ UKinds == [
     flags |-> [n1 |-> {F(FALSE, TRUE)}, n2 |-> {F(TRUE, TRUE)}, n3 |-> {F(FALSE, FALSE)}],
     leaseaddrs |-> <<>>, leasemacs |-> {},
     addrs |-> <<5, 6, 12>>,
-    cids  |-> << NoId, <<"cid", 1, 0>>, <<"cid", 2, 0>>, <<"cid", 9, 0>> >> ]
+    cids  |-> << NoId, <<"cid", 1, 0>>, <<"cid", 2, 0>>, <<"cid", 9, 0>>,
+                 <<"cidmac", 1, 0>>, <<"cidmacu", 2, 0>>, <<"cidip", 5, 0>> >> ]
 
 \* Every combination of the two opt-out switches; DHCP leases for an address
 \* that can also be an exact IP / lie in a prefix (5) and for one that cannot (12).
@@ -279,7 +280,7 @@ USet == [
     flags |-> [n1 |-> AllFlags, n2 |-> AllFlags],
     leaseaddrs |-> <<5, 12>>, leasemacs |-> {<<"mac", 1, 0>>},
     addrs |-> <<5, 6, 12>>,
-    cids  |-> << NoId, <<"cid", 1, 0>>, <<"cid", 9, 0>> >> ]
+    cids  |-> << NoId, <<"cid", 1, 0>>, <<"cid", 9, 0>>, <<"cidmac", 1, 0>>, <<"cidip", 5, 0>> >> ]
 
 \* IPv6 zones (link-local addresses): 0101 without a zone (5), in zone 1 (21)
 \* and in zone 2 (37) are three different exact-IP identifiers, all inside the
